@@ -160,6 +160,7 @@ func H_Merge() {
 	panicked := vx.CatchPanic(func() { out, err = jsonpatch.MergePatch(dB, pB) })
 	vx.Assert(!panicked, "C04/merge-no-panic")
 	if panicked {
+		vx.Note("panic", []byte(vx.PanicMsg()))
 		return
 	}
 	vx.Assert(err == nil, "C02/succeeds")
@@ -236,6 +237,7 @@ func H_MergeMerge() {
 	panicked := vx.CatchPanic(func() { comb, err = jsonpatch.MergeMergePatches(p1B, p2B) })
 	vx.Assert(!panicked, "C04/mergemerge-no-panic")
 	if panicked {
+		vx.Note("panic", []byte(vx.PanicMsg()))
 		return
 	}
 	vx.Assert(err == nil, "C07/succeeds")
@@ -383,6 +385,7 @@ func H_Create() {
 	panicked := vx.CatchPanic(func() { pB, err = jsonpatch.CreateMergePatch(aB, bB) })
 	vx.Assert(!panicked, "C04/create-no-panic")
 	if panicked {
+		vx.Note("panic", []byte(vx.PanicMsg()))
 		return
 	}
 	vx.Assert(err == nil, "C03/succeeds")
@@ -422,6 +425,7 @@ func H_CreateArr() {
 	panicked := vx.CatchPanic(func() { pB, err = jsonpatch.CreateMergePatch(aB, bB) })
 	vx.Assert(!panicked, "C04/create-no-panic")
 	if panicked {
+		vx.Note("panic", []byte(vx.PanicMsg()))
 		return
 	}
 	if na != nb {
@@ -476,6 +480,7 @@ func H_CreateReject() {
 	panicked := vx.CatchPanic(func() { _, err = jsonpatch.CreateMergePatch(aB, bB) })
 	vx.Assert(!panicked, "C04/create-no-panic")
 	if panicked {
+		vx.Note("panic", []byte(vx.PanicMsg()))
 		return
 	}
 	objs := func(v *JV) bool {
